@@ -76,6 +76,22 @@ add(P + "parse_format_width|assert:overflow|overflow:Add", "digits counts charac
 add(P + "parse_format_width|index|<str as Index<Range<usize>>>::index", "start[0..digits]: `digits` ASCII digits (one byte each) were consumed from `start`")
 add(M + "printf::format_directive|unwrap|unwrap on Result::<&std::path::Path, std::path::StripPrefixError>::unwrap", "%P: the prefix is an ancestor of the same path", {"type": "operand_from", "callee": "strip_prefix"})
 add(M + "printf::get_starting_point|unwrap|unwrap on Option::<&std::path::Path>::unwrap", "ancestors().nth(depth): a path yielded at depth d below its root has at least d ancestors (each level appended one component)")
+# ---- xargs ---------------------------------------------------------------------------------------------------------------------
+BR = "<findutils::xargs::ByteDelimitedArgumentReader<R> as findutils::xargs::ArgumentReader>::next"
+add(BR + "|assert:overflow|overflow:Sub", "buf.len() - 1 under bytes_read > 0: read_until appended that many bytes to the fresh buffer", {"type": "dominated_by_gt_zero"})
+add("<%sMaxArgsCommandSizeLimiter as %sCommandSizeLimiter>::try_arg|assert:overflow|overflow:Add" % (X, X), "current_args += 1 under current_args < max_args", {"type": "dominated_by_field_lt", "lhs": "current_args", "rhs": "max_args"})
+add("<%sMaxLinesCommandSizeLimiter as %sCommandSizeLimiter>::try_arg|assert:overflow|overflow:Add" % (X, X), "current_line counts input lines accepted so far: 2^64 lines cannot be read")
+add("<%sMaxCharsCommandSizeLimiter as %sCommandSizeLimiter>::try_arg|assert:overflow|overflow:Add" % (X, X), "current_size + cost: current_size is the byte total of arguments held in memory, cost <= isize::MAX + 1")
+add("<%sMaxCharsCommandSizeLimiter as %sCommandSizeLimiter>::try_arg|assert:overflow|overflow:Add#1" % (X, X), "current_size += cost right after `current_size + cost <= max_chars` held for the same values")
+add(X + "MaxCharsCommandSizeLimiter::new_system::{closure#0}|assert:overflow|overflow:Add", "cost(name) + cost(value) of one environment entry: both strings are in memory, their lengths cannot sum to 2^64")
+add(X + "CommandBuilder::<'_>::execute|index|<Vec<std::ffi::OsString> as Index<usize>>::index", "args[0] of ExecAction::Command", {"type": "variant_constructed_under_len_gt", "adt": X + "ExecAction", "variant": "Command"})
+add(X + "CommandBuilder::<'_>::execute|index|<Vec<std::ffi::OsString> as Index<RangeFrom<usize>>>::index", "args[1..] of ExecAction::Command", {"type": "variant_constructed_under_len_gt", "adt": X + "ExecAction", "variant": "Command"})
+add(X + "LimiterCursor::<'_>::try_next|seqop|split_at_mut on core::slice::<impl [Box<dyn CommandSizeLimiter>]>::split_at_mut", "split_at_mut(1) on the non-empty branch", {"type": "dominated_by_true", "callee": "is_empty", "value": False})
+add(X + "LimiterCursor::<'_>::try_next|assert:bounds|bounds", "current[0]: current is the first half of split_at_mut(1), of length 1", {"type": "dominated_by_true", "callee": "is_empty", "value": False})
+add(X + "normalize_options|unwrap|unwrap on Option::<clap::parser::Indices<'_>>::unwrap", "clap: indices_of(id) is Some for an argument that was given; this arm is only taken when -0 was given (get_flag true, no default)")
+add(X + "normalize_options|unwrap|unwrap on Option::<clap::parser::Indices<'_>>::unwrap#1", "clap: indices_of(id) is Some for an argument that was given; this arm is only taken when -d was given (get_one is Some, no default)")
+add(X + "parse_delimiter|index|<str as Index<RangeFrom<usize>>>::index", "&hex[1..] after starts_with('x'): the first character is one ASCII byte", {"type": "dominated_by_true", "callee": "starts_with"})
+add(X + "parse_delimiter|index|<str as Index<RangeFrom<usize>>>::index#1", "&oct[1..] after starts_with('0'): the first character is one ASCII byte", {"type": "dominated_by_true", "callee": "starts_with"})
 json.dump({
     "_comment": "generated by tools/gen_panic_table.py; reviewed by hand. `preconditions` are assumed at function entry and verified (zone) at every call site.",
     "preconditions": {
